@@ -12,7 +12,18 @@ VERIF = os.path.dirname(os.path.dirname(os.path.abspath(__file__)))
 LEAN = os.path.join(VERIF, "lean")
 HARNESS = os.path.join(VERIF, "harness")
 BUILD = os.path.join(VERIF, ".build")
-HARNESS_BIN = os.path.join(BUILD, "harness-target", "release", "rosu-verif-harness")
+# the implementation under test. Every registered command uses /repo; VERIF_REPO exists only so that
+# tools/seedtest.py can run a check against a scratch copy of /repo (with a seeded change applied) while
+# other runs are using /repo itself. An alternate repo gets its own copy of the harness and its own target dirs.
+REPO = os.path.abspath(os.environ.get("VERIF_REPO", "/repo"))
+if REPO != "/repo":
+    _alt = os.path.join(BUILD, "alt-" + hashlib.sha1(REPO.encode()).hexdigest()[:10])
+    HARNESS_SRC, HARNESS = HARNESS, os.path.join(_alt, "harness")
+    HARNESS_TARGET = os.path.join(_alt, "harness-target")
+else:
+    HARNESS_SRC = HARNESS
+    HARNESS_TARGET = os.path.join(BUILD, "harness-target")
+HARNESS_BIN = os.path.join(HARNESS_TARGET, "release", "rosu-verif-harness")
 DRIVER_BIN = os.path.join(LEAN, ".lake", "build", "bin", "rosudriver")
 ALLOWED_AXIOMS = {"propext", "Classical.choice", "Quot.sound"}
 NCPU = min(16, os.cpu_count() or 4)
@@ -33,7 +44,16 @@ def sh(cmd, cwd=None, timeout=3600, inp=None):
 
 def build_harness():
     """rebuild the harness against /repo's current working tree (hooks on)."""
-    lock_src = "/repo/Cargo.lock"
+    if HARNESS != HARNESS_SRC:
+        import shutil
+        shutil.rmtree(HARNESS, ignore_errors=True)
+        shutil.copytree(HARNESS_SRC, HARNESS)
+        for f, a, b in (("Cargo.toml", 'path = "/repo"', f'path = "{REPO}"'),
+                        (".cargo/config.toml", 'target-dir = "../.build/harness-target"', f'target-dir = "{HARNESS_TARGET}"')):
+            t = open(os.path.join(HARNESS, f)).read()
+            assert a in t
+            open(os.path.join(HARNESS, f), "w").write(t.replace(a, b))
+    lock_src = os.path.join(REPO, "Cargo.lock")
     lock_dst = os.path.join(HARNESS, "Cargo.lock")
     if os.path.exists(lock_src) and not os.path.exists(lock_dst):
         import shutil
@@ -43,13 +63,13 @@ def build_harness():
         raise Infra("harness build failed:\n" + err[-4000:])
 
 
-HARNESS_TRACING_BIN = os.path.join(BUILD, "harness-target-tracing", "release", "rosu-verif-harness")
+HARNESS_TRACING_BIN = os.path.join(HARNESS_TARGET + "-tracing", "release", "rosu-verif-harness")
 
 
 def build_harness_tracing():
     """second build of the harness with rosu-map's `tracing` feature on (C01's feature-set quantifier)"""
     rc, out, err = sh(["cargo", "build", "--release", "--offline", "--features", "tracing",
-                       "--target-dir", os.path.join(BUILD, "harness-target-tracing")], cwd=HARNESS, timeout=1800)
+                       "--target-dir", HARNESS_TARGET + "-tracing"], cwd=HARNESS, timeout=1800)
     if rc != 0:
         raise Infra("harness (tracing) build failed:\n" + err[-4000:])
 
